@@ -4,7 +4,7 @@
   step of that actor (except the expiry actor's `tick`, which restarts its loop: the Go `select`
   picks randomly between a ready ticker and `Dying`).
 -/
-import Lungo.Proofs.ConcAll
+import Lungo.Proofs.ConcInvDefs
 namespace Lungo.Conc
 
 /-- steps from `Pc.after` to the end of the call, assuming the engine is dead -/
